@@ -67,6 +67,8 @@ class Runner:
         for n in range(1, max(self.n, 3) + 1):
             only_two_deps = n > self.n     # beyond the tier's n only the two-dependency markings are generated (edge bound 1)
             for kinds, reads in D.graphs(n, (self.edges if not only_two_deps else 1) if n == 3 else None):
+                if 'C' in kinds:
+                    continue  # coupled systems are C05's subject; the external-variable expectations here are per equation
                 if self.lean and ('G' in kinds or any(i in reads[i] for i in range(n))):
                     continue  # quick: guessed unknowns and self-reading states only in the dedicated sub-family / thorough
                 for place in D.placements(n):
